@@ -39,6 +39,15 @@ func RunBubble(t *testing.T, c Case) (res *Result, stuck string, err error) {
 			subj = groupStream{stream.Batch[int](e.mainSource(), time.Second, n)}
 		case "Merge1":
 			subj = itemStream{stream.Merge[int](e.mainSource())}
+		case "MergeN":
+			inners := e.nestSources(true)
+			ss := make([]stream.Stream[int], len(inners))
+			for i := range inners {
+				inners[i].Gaps = gaps(len(inners[i].Items), e.srcGap*time.Duration(i+1))
+				ss[i] = inners[i]
+				addSource(e, inners[i], nil)
+			}
+			subj = itemStream{stream.Merge[int](ss...)}
 		case "MapStream":
 			src := e.mainSource()
 			n := len(c.Input)
